@@ -173,6 +173,8 @@ func (of *orderFlow) analyseIteration(it *iteration) {
 		switch {
 		case t.phi != nil:
 			of.taint(t.phi, "filled in "+what+" in "+fname)
+		case t.val != nil:
+			of.taint(t.val, "filled cell by cell in "+what+" in "+fname)
 		case t.field != nil:
 			of.fieldTaintFns[t.field] = append(of.fieldTaintFns[t.field], t.fn)
 			of.taintField(t.field, "appended to in "+what+" in "+originName(t.fn))
